@@ -66,7 +66,7 @@ def _walk(bv):
     return walk_terms(bv)
 
 
-def affine_cmp(ex, t, track):
+def affine_cmp(ex, t, track, _depth=0):
     """for a term fcmp(A, B) with A - B = c1 * v + c0, v the argument or its absolute value: (x0 list, {x0: slope sign})"""
     from . import c10trig as TR
     try:
@@ -74,8 +74,18 @@ def affine_cmp(ex, t, track):
     except NotReal:
         return {}
     if len(ca) != 1 or len(cb) != 1:
-        return {}
-    d = ca[0][1] - cb[0][1]
+        if len(ca) * len(cb) > 16 or _depth:
+            return {}
+        out = {}
+        for (c1, fa) in ca:
+            for (c2, fb) in cb:
+                out.update(_affine_points(ex, fa - fb, track))
+        return out
+    return _affine_points(ex, ca[0][1] - cb[0][1], track)
+
+
+def _affine_points(ex, d, track):
+    from . import c10trig as TR
     if d.den != RFN.p_const(1):
         return {}
     ats = sorted(d.atoms())
@@ -123,7 +133,7 @@ def binade_points(bits):
     return [Fr(2) ** e for e in range(emin, emax + 1)]
 
 
-def analyse_cont(mod, fname, bits, thr_ulp, binades=False):
+def analyse_cont(mod, fname, bits, thr_ulp, binades=False, abs_floor=None):
     """boundary points from every loop-free control path; at each point the function is evaluated just below and just
     above: the control path is the one a batch holding the point in every lane takes on that side"""
     from .c10 import lane_term, walk_terms, Mismatch
@@ -214,6 +224,7 @@ def analyse_cont(mod, fname, bits, thr_ulp, binades=False):
                 else:
                     le = lanes.Eval(mod, f_, args)
                     le.oracle = lambda c, inst, ev=ev: bool(ev.bits(c) & 1)
+                    le.max_visits = 60
                     le.run()
                     term = T.canon(T.slice_(le.ret, track * w, w))
                 v = ev.fval_abs(term)
@@ -235,11 +246,135 @@ def analyse_cont(mod, fname, bits, thr_ulp, binades=False):
             continue
         a, b = vals
         mag = min(a.mig(), b.mig())
-        if a.mag() < tiny or b.mag() < tiny or mag == 0 or a.mag() > huge or b.mag() > huge:
+        if abs_floor is not None and a.mag() <= huge and b.mag() <= huge:
+            mag = max(mag, abs_floor)            # a bound stated in ulps of max(|result|, floor) (lgamma)
+        elif a.mag() < tiny or b.mag() < tiny or mag == 0 or a.mag() > huge or b.mag() > huge:
             out['skipped'].append({'x0': float(x0), 'why': 'result outside the normal range (saturation threshold)'})
             continue
         diff = (a - b).mag()
         rel = diff / mag
         ulp = rel * (1 << p)
         out['boundaries'].append({'x0': float(x0), 'x0_exact': str(x0), 'value': float(a.mid()), 'jump_ulp': float(ulp), 'ok': ulp <= 2 * thr_ulp})
+    return out
+
+
+def path_allows(assumed, ev, track):
+    """does the control path (whole-batch conditions `assumed`) allow a batch whose tracked lane holds the point of `ev`?
+    True / False, or None when a condition on the tracked lane is not understood.  any(M) / all(M) / none(M) constrain the
+    lane only through its own bit of M (evaluated at the point); branches of the lane's own scalar code are evaluated."""
+    from . import c10trig as TR
+    for (kind, c) in assumed:
+        c = T.canon(c)
+        if T.is_const(c):
+            continue
+        ls = TR.lanes_in(c)
+        if track not in ls:
+            continue
+        truth = (kind == 'is')
+        t = T.single_term(c)
+        if t is not None and t.name == 'not' and len(t.ops) == 1:
+            t, truth = T.single_term(T.canon(t.ops[0])), not truth
+        if len(ls) == 1:
+            try:
+                b = ev.bits(c) & 1
+            except (PE.Unevaluable, KeyError, ValueError, ZeroDivisionError):
+                return None
+            if bool(b) != (kind == 'is'):
+                return False
+            continue
+        if t is None or t.name not in ('eq', 'ne') or not any(T.is_const(T.canon(o)) for o in t.ops):
+            return None
+        k = [T.canon(o) for o in t.ops if T.is_const(T.canon(o))][0]
+        v = [T.canon(o) for o in t.ops if not T.is_const(T.canon(o))][0]
+        kv = T.const_val(k)
+        none_set = (kv == 0) and ((t.name == 'eq') == truth)
+        all_set = (kv == (1 << T.width(k)) - 1) and ((t.name == 'eq') == truth)
+        for pce in v:
+            if pce[0] not in 'sr' or track not in TR.lanes_in((pce,)):
+                continue
+            if len(TR.lanes_in((pce,))) != 1:
+                return None
+            try:
+                b = ev.bits((pce,))
+            except (PE.Unevaluable, KeyError, ValueError, ZeroDivisionError):
+                return None
+            w = T.pw(pce)
+            if none_set and b != 0:
+                return False
+            if all_set and b != (1 << w) - 1:
+                return False
+    return True
+
+
+def analyse_paths(mod, fname, bits, thr_ulp, abs_floor=None):
+    """Path agreement (mixed batches): which any()/all() fast path a batch takes depends on the OTHER lanes, so every
+    loop-free control path whose whole-batch conditions allow this lane's value must give the lane a value within twice
+    the bound (+ allowance) of what every other such path gives.  One interior point per cell between consecutive switch
+    points (and beyond the outermost) is evaluated by exact constant propagation through the tracked lane's term of each path."""
+    from .c10 import Mismatch, walk_terms
+    from . import c10trig as TR
+    T.reset()
+    track = 1
+    f_ = mod.functions.get(fname)
+    if f_ is None:
+        raise Mismatch('wrapper %s missing' % fname)
+    done, dropped = TR.explore(mod, f_, track, limit=60)
+    out = {'paths': len(done), 'dropped_paths': len(dropped), 'points': 0, 'compared': 0, 'cells': [], 'skipped': [], 'undecided_paths': 0}
+    if len(done) < 2:
+        return out
+    ex = RFN.Extract()
+    argname = None
+    points = set()
+    for d in done:
+        for bv in [d[0]] + [c for (k, c) in d[1]]:
+            for t in walk_terms(bv):
+                if t.kind == 'arg' and t.attrs == track:
+                    argname = t.name
+                if t.name.startswith('f') and t.name[1:] in ('olt', 'ole', 'ogt', 'oge', 'ult', 'ule', 'ugt', 'uge') and t.width == 1:
+                    points |= set(affine_cmp(ex, t, None))
+    if argname is None:
+        return out
+    p = 24 if bits == 32 else 53
+    tiny = Fr(2) ** (-124 if bits == 32 else -1020)
+    huge = Fr(2) ** (126 if bits == 32 else 1022)
+    pos = sorted(x for x in points if x > 0 and x < huge)
+    if not pos:
+        return out
+    samples = [pos[0] / 2] + [(a + b) / 2 for a, b in zip(pos, pos[1:])] + [pos[-1] * 2]
+    samples = [s for s in samples if tiny * 16 < s < huge / 16]
+    samples = samples + [-s for s in samples]
+    out['points'] = len(samples)
+    for x in samples:
+        vals = []
+        ev = PE.PointEval({argname: x})
+        for (term, assumed, prefix) in done:
+            pa = path_allows(assumed, ev, track)
+            if pa is None:
+                out['undecided_paths'] += 1
+            if not pa:
+                continue
+            try:
+                v = ev.fval_abs(term)
+            except (PE.Unevaluable, ZeroDivisionError, OverflowError, KeyError, ValueError, RecursionError) as e:
+                out['skipped'].append({'x': float(x), 'path': ''.join('TF'[not b] for b in prefix), 'why': ('%s %s' % (type(e).__name__, e))[:100]})
+                continue
+            if v.special or v.iv.mag() > huge or (abs_floor is None and (v.iv.mag() < tiny or v.iv.mig() == 0)):
+                continue
+            vals.append((v.iv, prefix))
+        if len(vals) < 2:
+            continue
+        out['compared'] += 1
+        worst = None
+        for i in range(len(vals)):
+            for j in range(i + 1, len(vals)):
+                a, b = vals[i][0], vals[j][0]
+                mg = min(a.mig(), b.mig())
+                if abs_floor is not None:
+                    mg = max(mg, abs_floor)
+                ulp = (a - b).mag() / mg * (1 << p)
+                if worst is None or ulp > worst[0]:
+                    worst = (ulp, vals[i][1], vals[j][1], a, b)
+        out['cells'].append({'x': float(x), 'x_exact': str(x), 'paths': len(vals), 'spread_ulp': float(worst[0]), 'ok': worst[0] <= 2 * thr_ulp,
+                             'path_a': ''.join('TF'[not b] for b in worst[1]), 'path_b': ''.join('TF'[not b] for b in worst[2]),
+                             'value_a': float(worst[3].mid()), 'value_b': float(worst[4].mid())})
     return out
